@@ -21,7 +21,7 @@ REQUIRED = ["ack_next", "read_data", "mem_image"]
 
 
 def n_cases(tier):
-    return 96 if tier == "quick" else 1600
+    return 800 if tier == "quick" else 10000
 
 
 def gen_case(rng, tier, idx):
